@@ -36,7 +36,7 @@ VALUES = ["5", "-5", "+7", " 8 ", "007", "0", "yes", "no", "true", "false", "Yes
 DEFAULTS = {"verbose": "info", "clean_logs": True, "use_spec_hashes": False}
 
 
-QUICK_BUDGET = {"cases": 800, "deadline_s": 170, "case_timeout_s": 120, "floors": {"config_commands": 1142, "file_comparisons": 1142, "backend_selections": 35, "verbosity_cases": 35, "colour_cases": 35, "settings_cases": 60}}
+QUICK_BUDGET = {"cases": 800, "deadline_s": 170, "case_timeout_s": 120, "floors": {"config_commands": 1142, "file_comparisons": 1142, "backend_selections": 35, "verbosity_cases": 35, "colour_cases": 35, "settings_cases": 60, "linked_workflow_cases": 20}}
 THOROUGH_FACTOR = 10  # thorough = the same workload with 10x the cases (floors scale along)
 
 
@@ -53,7 +53,7 @@ def gen_case(rng, idx, tier):
         for _ in range(rng.randint(6, 16)):
             kind = rng.choice(["set", "set", "set", "get", "get", "unset"])
             ops.append({"op": kind, "key": rng.choice(KEYS), "value": rng.choice(VALUES), "from": rng.choice(["root", "sub"])})
-        return {"lane": "roundtrip", "ops": ops, "preexisting": rng.random() < 0.3}
+        return {"lane": "roundtrip", "ops": ops, "preexisting": rng.random() < 0.3, "linked_workflow": rng.random() < 0.25}
     if k == 3:
         fams = ["slurm", "sge", "lsf"]
         on_path = rng.choice([["slurm"], ["sge"], ["lsf"], fams, fams])
@@ -94,6 +94,15 @@ def run_roundtrip(case):
     res = Result()
     with gen.Project() as proj:
         basic_project(proj)
+        shared = None
+        if case.get("linked_workflow"):
+            # the project's workflow.py is a symbolic link to a file shared between projects: configuration and
+            # state still belong to THIS project (next to the link), never to the directory of the link's target
+            shared = os.path.join(proj.base, "shared")
+            os.makedirs(shared)
+            os.rename(os.path.join(proj.root, "workflow.py"), os.path.join(shared, "workflow.py"))
+            os.symlink(os.path.join(shared, "workflow.py"), os.path.join(proj.root, "workflow.py"))
+            res.mon("linked_workflow_cases")
         SimCluster(proj.simdir, "slurm")
         env = cli.env_for(proj.simdir, ("slurm",))
         model_ = {}  # key -> list of acceptable values
@@ -155,6 +164,8 @@ def run_roundtrip(case):
                         confs.append(os.path.relpath(os.path.join(dp, f), proj.root))
             if confs not in ([], [".gwfconf.json"]):
                 res.violation("config-location", "config files at %s" % confs, **ctx)
+            if shared and sorted(os.listdir(shared)) != ["workflow.py"]:
+                res.violation("config-location", "the directory of the link's target now holds %s" % sorted(os.listdir(shared)), **ctx)
             try:
                 with open(os.path.join(proj.root, ".gwfconf.json")) as f:
                     data = json.load(f)
